@@ -25,9 +25,16 @@ import (
 func TestC25(t *testing.T) {
 	m := mon.New(t, "C25")
 	defer m.Done()
-	m.Rule("case(conn) = one connection state for pair (cipher,MAC) = i mod #pairs, round = i div #pairs: hash = round mod 3 of {sha1,sha256,sha512}, start seq = round mod 4 of {0,1,2^32-3,random}, random K (mpint 1..512 bytes / string-encoded 32 bytes), H, session id; 1..40 packets (rounds 0..11: packets 0..24 carry payload length 25*round+j+1 so each pair sees every length 1..300; other lengths from block-size neighbours, 32768±1, powers of two ±1); each packet is written by the real writer and read by sshref AND a real reader, and a second packet with the same length class is written by sshref (padding 255 for packet 0, 4 for packet 1, then min/max/random legal) and read by a real reader. case(max) = per pair payloads maxPacket-64, maxPacket-1, maxPacket (must round-trip), maxPacket+1 (who refuses is recorded) embedded between two small packets, plus the largest legal sshref-written packet_length <= maxPacket. case(transport) = real client and real server (real kex from a list covering sha1/256/384/512 and mpint/string K, optional re-key by either side) over a recording duplex; sshref.Decoder parses both recorded directions from the first packet (none framing, NEWKEYS key switch with independently derived keys, its own sequence counting incl. strict-KEX reset) and must reproduce exactly the (seq, payload) list the sending transport was handed and the seq the receiving transport counted. case(ivcarry) = raw packet ciphers (caller-chosen key/IV, no key derivation) for every AES-GCM cipher x k=1..8 and every AES-CTR cipher x k=1..16: the counter starts 0..2 steps below the value whose low k bytes are 0xff (k=8 for GCM: 2^64-1 wrap with the fixed field unchanged; k=16 for CTR: 2^128 wrap), 7 packets cross the boundary, each judged by sshref reader, real reader and sshref writer -> real reader. case(gcmcarry) = AES-GCM keys searched so that the invocation counter carries out of its low byte(s) within the first packets. distinct = (pair, payload length class) and (framing class, hash, seq class); non-trivial = a packet reached all three oracles")
+	m.Rule("case(conn) = one connection state for pair (cipher,MAC) = i mod #pairs, round = i div #pairs: hash = round mod 3 of {sha1,sha256,sha512}, start seq = round mod 4 of {0,1,2^32-3,random}, random K (mpint 1..512 bytes / string-encoded 32 bytes), H, session id; 1..40 packets (rounds 0..11: packets 0..24 carry payload length 25*round+j+1 so each pair sees every length 1..300; other lengths from block-size neighbours, 32768±1, powers of two ±1); each packet is written by the real writer and read by sshref AND a real reader, and a second packet with the same length class is written by sshref (padding 255 for packet 0, 4 for packet 1, then min/max/random legal) and read by a real reader. case(max) = per pair payloads maxPacket-64, maxPacket-1, maxPacket (must round-trip), maxPacket+1 (who refuses is recorded) embedded between two small packets, plus the largest legal sshref-written packet_length <= maxPacket. case(transport) = real client and real server (real kex from a list covering sha1/256/384/512 and mpint/string K, optional re-key by either side) over a recording duplex; sshref.Decoder parses both recorded directions from the first packet (none framing, NEWKEYS key switch with independently derived keys, its own sequence counting incl. strict-KEX reset) and must reproduce exactly the (seq, payload) list the sending transport was handed and the seq the receiving transport counted. case(ivcarry) = raw packet ciphers (caller-chosen key/IV, no key derivation) for every AES-GCM cipher x k=1..8 and every AES-CTR cipher x k=1..16: the counter starts 0..2 steps below the value whose low k bytes are 0xff (k=8 for GCM: 2^64-1 wrap with the fixed field unchanged; k=16 for CTR: 2^128 wrap), 7 packets cross the boundary, each judged by sshref reader, real reader and sshref writer -> real reader. case(conc-marshal) = 8 goroutines call ssh.Marshal/ssh.Unmarshal at once on the same / on different message types (6 struct shapes covering every field kind), expected bytes from a hand-written RFC 4251 encoder. case(conc-ciphers) = distinct packet cipher values used at once: 4 independent connections (writer+reader goroutine each) of the same algorithm, of different algorithms, and the two directions of ONE connection (writer keyed c2s, reader keyed s2c, same kex) — expected wire bytes precomputed by sshref.Writer, every case once normally and once under GOMAXPROCS(1), overlap observed with an in-flight counter. case(gcmcarry) = AES-GCM keys searched so that the invocation counter carries out of its low byte(s) within the first packets. distinct = (pair, payload length class) and (framing class, hash, seq class); non-trivial = a packet reached all three oracles")
 	m.Assume("sshref (h/sshref: RFC 4253/4344/5647, OpenSSH PROTOCOL EtM and chacha20poly1305, own ChaCha20/Poly1305/CTR/CBC/RC4 with KATs) is the specification oracle; Go standard library AES, 3DES, GCM, HMAC, SHA are trusted")
 	m.Assume("alignment rule for *-etm MACs and AEADs (length field excluded) follows RFC 5647 §7 and the OpenSSH implementation that defines the *-etm@openssh.com algorithms")
+
+	m.Assume("concurrency streams: interleavings are chosen by the Go scheduler (plus runtime.Gosched in harness callbacks and a GOMAXPROCS(1) pass); the race-detector build variant runs only these streams")
+	if mon.RaceBuild {
+		runC25Conc(m)
+		return
+	}
+	runC25Conc(m)
 
 	pairs := allPairs()
 	P := len(pairs)
